@@ -529,6 +529,20 @@ def file_local_context(src, path, cut_ranges, cut_texts, already, kinds=None):
         elif depth == 0 and ch == "}":
             # end of a function body (or of a block that continues to a `;`): a function definition ends here
             if _looks_like_function_end(src, stmt_start, pos):
+                # a static function of the file: a helper the cut functions may call (cut along when referenced and not declared by the prelude)
+                seg = src[stmt_start:pos + 1]
+                body = seg
+                lead = 0
+                while True:
+                    mm = re.match(r"\s+|/\*.*?\*/|//[^\n]*|#(?:[^\n\\]|\\\n|\\[^\n])*", body, re.S)
+                    if not mm:
+                        break
+                    lead += mm.end()
+                    body = body[mm.end():]
+                flat = _strip_comments_strings(body)
+                mm = re.match(r"static\b[^(){};]*?\b(\w+)\s*\(", flat)
+                if mm and mm.group(1) not in _CKW:
+                    ents.append((stmt_start + lead, pos + 1, [mm.group(1)], src[stmt_start + lead:pos + 1], "static function"))
                 stmt_start = pos + 1
         k += 1
     inside = lambda a, b: any(s0 <= a and b <= e0 for (s0, e0) in cut_ranges)
